@@ -157,7 +157,8 @@ def snapshotC (st : St) : String :=
     s!"hist={joinWith "#" st.histC.toList}",
     s!"rr={st.rrC}",
     s!"ra={joinWith "," (s.recentA.map (fun a => hexOfBytes (Auth.encode a)))}",
-    s!"servers={hx (AuthServer.encodeList s.servers)}", s!"migs={joinWith "," migs}"]
+    s!"servers={hx (AuthServer.encodeList s.servers)}", s!"migs={joinWith "," migs}",
+    s!"dl={s.disk.auths.length},{s.disk.reports.length},{s.disk.weeks.length}"]
 
 def handleSrv (st : St) (kind : String) (a : Args) (obs : String) : IO St := do
   match kind with
@@ -170,6 +171,12 @@ def handleSrv (st : St) (kind : String) (a : Args) (obs : String) : IO St := do
       let st := refresh { st with srv := s, srvUp := true } {} none
       if obs != "ok" then report st kind "ok" obs else return st
     | none => if obs != "fail" then report st kind "fail" obs else return st
+  | "srv.tear" =>
+    -- a crash left the directory in a torn state (the process is gone: only the disk matters)
+    let d := st.srv.disk
+    let d' := if arg a "kind" == "gca" then { d with gcaKey := some [] }
+              else { d with reports := d.reports.take (argNat a "n") }
+    return { st with srv := { st.srv with disk := d' } }
   | "srv.snap" =>
     let m := snapshotC st
     if sameObs m obs then return st else report st kind m obs
@@ -187,6 +194,9 @@ def handleSrv (st : St) (kind : String) (a : Args) (obs : String) : IO St := do
         IO.println s!"ORACLE-MISS line={st.lines} {kind}"
       let old := st.srv
       let (s1, o1) := step st.cfg (mkV st.oracle false) noSign st.srv op
+      if obs == "CRASH" then
+        -- the process died inside this operation after its file write: only the disk effect survives
+        return refresh { st with srv := s1 } old (some op)
       let st := refresh { st with srv := s1 } old (some op)
       -- observed: "<out>" optionally followed by " #<hash of snapshot after the op>"
       let (obsOut, obsHash) := match obs.splitOn " #" with
